@@ -1,4 +1,5 @@
 """C13 — stats account for every message (engine E2)."""
+import re
 import e2
 
 TIE = ["Nsq.Tie.Chan", "Nsq.Tie.ChanFunc"]
@@ -18,9 +19,34 @@ def run(ctx):
         "replayed with the hook on every run (corpus/C13/fixed/f8_fin_empty.ops)",
         "0 <= max-rdy-count",
         "quiescent moments only (the property says so): GetStats reads the counters one after the other",
+        "channel backend writes succeed (go-diskqueue Put returns nil): a failing write in REQ / timeout / deferred scan loses the message "
+        "and, on the REQ path, leaves the consumer's in_flight_count one too high — open finding chan-backend-write-fails (audit B3), "
+        "replayed by TestVerifE2PutFail with an injected write error",
     ]
     res, broken = e2.run_property(ctx, "C13", TIE, PROPS)
+    run_putfail(ctx, broken)
     if (ctx.broken_ties or broken) and not ctx.violations:
         ctx.broken_without_input(ctx.broken_ties + broken,
                                  "search: %d generated op lines with stats comparison found no counter that drifts"
                                  % ctx.evaluations)
+
+
+def run_putfail(ctx, broken):
+    """open finding chan-backend-write-fails (audit B3): the injected backend write error on the real code, every run"""
+    binp = ctx.go_test_binary("nsqd", ["e2/e2_putfail_test.go"], "e2pf")
+    if not binp:
+        ctx.log("the put-fail leg does not compile against the current tree")
+        broken.append("put-fail leg does not compile")
+        return
+    rc, out = ctx.run_cmd([binp, "-test.run", "^TestVerifE2PutFail$", "-test.count=1", "-test.timeout=120s"],
+                          timeout=150, env={"VERIF_SEED": ctx.seed, "VERIF_OUT": ctx.work})
+    lines = [l for l in out.splitlines() if l.startswith("PUTFAIL ")]
+    ctx.corr["putfail_replay"] = [l[:400] for l in lines]
+    if not lines and "no tests to run" not in out:
+        ctx.log("TestVerifE2PutFail did not complete (rc=%s):\n%s" % (rc, out[-1500:]))
+        broken.append("put-fail leg exit %s" % rc)
+    for l in lines:
+        ctx.evaluations += 1
+        if re.search(r"reproduced=true", l):
+            ctx.violation("chan-backend-write-fails", l[:400],
+                          open(e2.os.path.join(e2.ROOT, "corpus", "C13", "known", "chan_backend_write_fails.ops")).read() + l + "\n")
